@@ -170,13 +170,16 @@ package task
 //@   site (*Executor).runCommand#1 requires
 //@        forall k {promptOK(call, k)} :: 0 <= k && k < len(t.Prompt) ==> t.Prompt[k] == "" || e.Dry || promptOK(call, k) [C13]
 //@   site (*Executor).runCommand#1 requires forall j {cmdSettled(t, j)} :: 0 <= j && j < $i && !t.Cmds[j].Defer ==>
-//@        cmdSettled(t, j) && (cmdOK(t, j) || (t.IgnoreError && cmdExitFail(t, j)))                   [C02,C03,C13]
+//@        cmdSettled(t, j)                                                                             [C02]
+//@   site (*Executor).runCommand#1 requires forall j {cmdOK(t, j)} :: 0 <= j && j < $i && !t.Cmds[j].Defer ==>
+//@        cmdOK(t, j) || (t.IgnoreError && cmdExitFail(t, j))                                          [C03,C13]
 //@   site (*Executor).runCommand#1 ghost set cmdSettled(t, $i)
 //@   site (*Executor).runCommand#1 ghost set cmdOK(t, $i) if result == nil
 //@   site IsExitStatus#1 ghost set cmdExitFail(t, $i) if result.1
 //@   site (*Executor).runDeferred#1 ghost set deferRegistered(t, $i)
-//@   loop 2 invariant forall j {cmdSettled(t, j)} :: 0 <= j && j < $i && !t.Cmds[j].Defer ==>
-//@        cmdSettled(t, j) && (cmdOK(t, j) || (t.IgnoreError && cmdExitFail(t, j)))                   [C02,C03,C13]
+//@   loop 2 invariant forall j {cmdSettled(t, j)} :: 0 <= j && j < $i && !t.Cmds[j].Defer ==> cmdSettled(t, j)   [C02]
+//@   loop 2 invariant forall j {cmdOK(t, j)} :: 0 <= j && j < $i && !t.Cmds[j].Defer ==>
+//@        cmdOK(t, j) || (t.IgnoreError && cmdExitFail(t, j))                                          [C03,C13]
 //@   loop 2 invariant forall j {deferRegistered(t, j)} :: 0 <= j && j < $i && t.Cmds[j].Defer ==> deferRegistered(t, j)     [C14]
 //@   deferrule deferRegistered => deferRan
 //@   requires forall j {deferRegistered(t, j)} :: !deferRegistered(t, j)
